@@ -248,4 +248,61 @@ theorem reinitLit2_eq_reinit (H : String → UInt64) (t : T) : reinitLit2 H t = 
         rw [this]
         exact zipWith_rebuild _
 
+/-! ## `UpdateTipIndex` and `ReinitInternalIndexes` statement by statement -/
+
+theorem updateTipIndexLit_eq (l seen : List String) (hs : seen.Nodup) :
+    updateTipIndexLit l seen =
+      if (seen ++ l).Nodup then .ok (seen ++ l)
+      else .err "Cannot create a tip index when several tips have the same name" := by
+  induction l generalizing seen with
+  | nil => simp [updateTipIndexLit, hs]
+  | cons x r ih =>
+    rw [updateTipIndexLit]
+    by_cases hx : x ∈ seen
+    · have : ¬ (seen ++ x :: r).Nodup := by
+        intro h
+        exact (List.nodup_append.mp h).2.2 x hx x (List.mem_cons_self ..) rfl
+      simp [hx, this]
+    · have hs' : (seen ++ [x]).Nodup := by
+        refine List.nodup_append.mpr ⟨hs, by simp, ?_⟩
+        intro a ha b hb hab
+        rw [List.mem_singleton.mp hb] at hab
+        exact hx (hab ▸ ha)
+      have hc : seen.contains x = false := by simpa using hx
+      simp only [hc, Bool.false_eq_true, if_false]
+      rw [ih (seen ++ [x]) hs']
+      simp [List.append_assoc]
+
+/-- the literal records are the records of `reinit` -/
+theorem lit_records_eq (H : String → UInt64) (t : T) :
+    List.zipWith (fun (b : List Bool) (h : UInt64 × Nat × UInt64 × Nat) =>
+        ({ bits := b, nleft := h.2.1, nright := h.2.2.2, hleft := h.1, hright := h.2.2.1 } : EdgeIdx))
+      (updateBitSet (fun x => (sortNames t.tipNames).idxOf x) (sortNames t.tipNames).length t.kids)
+      (hashTLit H true (0, 0) t) =
+    idxL H (fun x => (sortNames t.tipNames).idxOf x) (sortNames t.tipNames).length (rootUp H t) (0, 0) t.kids := by
+  rw [updateBitSet_eq, ← idxL_bits H _ _ t.kids (rootUp H t) (0, 0)]
+  rw [hashTLit_eq H (fun x => (sortNames t.tipNames).idxOf x) (sortNames t.tipNames).length t true (0, 0)]
+  have : upEff H true t.name (0, 0) t.kids = rootUp H t := by
+    unfold upEff rootUp; simp
+  rw [this]
+  exact zipWith_rebuild _
+
+theorem reinitInternalLit_eq_reinit (H : String → UInt64) (t : T) (hn : (sortNames t.tipNames).Nodup) :
+    reinitInternalLit H (sortNames t.tipNames) t = reinit H t := by
+  unfold reinitInternalLit reinit
+  simp only [hn, decide_true, Bool.not_true, Bool.false_eq_true, if_false]
+  split
+  · rfl
+  · rw [lit_records_eq]
+
+theorem reinitLit3_eq_reinit (H : String → UInt64) (t : T) : reinitLit3 H t = reinit H t := by
+  unfold reinitLit3
+  rw [updateTipIndexLit_eq _ [] List.nodup_nil, List.nil_append]
+  by_cases hn : (sortNames t.tipNames).Nodup
+  · simp only [hn, if_true]
+    exact reinitInternalLit_eq_reinit H t hn
+  · simp only [hn, if_false]
+    unfold reinit
+    simp [hn]
+
 end Gotree.C04
